@@ -26,7 +26,7 @@ LEVEL_TEXT = ("Scenarios with continuous release, deaths by IBM age limit and by
 LEVEL_NOTE = ("Tolerance 1e-9 with float64 forcing files, 2e-6 relative (f4 output precision) with float32 forcing files because u += dU accumulates in a different order after a restart. An additional final "
               "record at the stop time in the restarted run and a different default reference time are documented behaviour and are not judged.")
 RULE = ("case = scenario; every completed file except the last is a restart point. Non-trivial restart point: particles are released and die after it; distinct by scenario parameters and file index.")
-MANDATORY = ["restart_points", "records_compared", "new_release_after_restart", "death_after_restart", "left_grid", "duration_not_multiple_of_period", "scheme_EF", "scheme_RK2", "scheme_RK4",
+MANDATORY = ["restart_points", "records_compared", "newest_pids_dead_in_last_record", "newest_pids_dead_in_last_record_no_particle_variables", "new_release_after_restart", "death_after_restart", "left_grid", "duration_not_multiple_of_period", "scheme_EF", "scheme_RK2", "scheme_RK4",
              "particle_variable_compared", "file_names_compared"]
 ASSUMPTIONS = ["diffusion off (as the property states)", "sparse layout (warm start reads particle_count)"]
 TIMEOUT = {"quick": 1200, "thorough": 3500}
@@ -37,6 +37,8 @@ def gen_cases(tier: str, seed: int) -> list[dict[str, Any]]:
     cases = [dict(seed=seed, idx=i) for i in range(n)]
     # restart points built to satisfy the F17 predicate (most recently released particles never appear in the warm-start file)
     cases += [dict(seed=seed, idx=10**6 + i, gap=True) for i in range(2 if tier == "quick" else 20)]
+    # restart points where the newest particles are in the warm-start file but dead in its last record (older ones alive)
+    cases += [dict(seed=seed, idx=2 * 10**6 + i, newest_dead=True) for i in range(4 if tier == "quick" else 40)]
     return cases
 
 
@@ -83,7 +85,17 @@ def build(case: dict[str, Any]):
         t1 = str(tadd(C.T0, dt))
         rows = [[t1, 16.2, 8.4, 5.0], [t1, 14.7, 9.6, 8.0], [t1, 1.8, 7.5, 2.0]]
         lifetime = 100 * dt
-    pvars = not (case.get("gap") and case["idx"] % 2 == 1) and not (not case.get("gap") and case["idx"] % 5 == 4)
+    if case.get("newest_dead"):
+        # every release tick adds long-lived interior particles first and, with the highest pids, particles that leave through
+        # the western boundary two steps later; ticks every 3 steps, output every step, files of 3 (or 2) records
+        P, freq, numrec = 1, 3, 3 - (case["idx"] % 2)
+        ns = 9 + (case["idx"] % 4)
+        world["vel"] = dict(kind="const", u=-0.9 * dx / dt, v=0.0)
+        world["frames"] = [-dt, (ns + 3) * dt]
+        world["files"] = [2]
+        rows = [[C.T0, 17.2, 8.4, 5.0], [C.T0, 15.7, 9.6, 8.0], [C.T0, 3.0, 7.5, 2.0], [C.T0, 3.1, 6.5, 2.0]]
+        lifetime = 100 * dt
+    pvars = not (case.get("gap") and case["idx"] % 2 == 1) and not (case.get("newest_dead") and case["idx"] % 4 < 2) and not (not case.get("gap") and case["idx"] % 5 in (1, 4))
     run = dict(start=C.T0, stop=str(tadd(C.T0, ns * dt)), dt=dt, reference="2020-01-01T00:00:00" if case["idx"] % 2 else None, advection=scheme, extra_forcing=["temp"],
                release=dict(columns=["release_time", "X", "Y", "Z"], rows=rows, header=True, continuous=True, freq=freq * dt),
                state=dict(instance_variables=dict(age="float", weight="float", temp="float"), particle_variables=dict(release_time="time") if pvars else {},
@@ -137,6 +149,10 @@ def run_case(case: dict[str, Any], wd: Path) -> dict[str, Any]:
         maxpid_file = max((int(r.pid.max()) for r in fk.records if len(r.pid)), default=-1)
         pid_gap = maxpid_file + 1 < snap["npid"]  # F17 predicate: released particles that never appear in the warm-start file
         sit["restart_points_with_pid_gap"] = sit.get("restart_points_with_pid_gap", 0) + int(pid_gap)
+        last_max = int(fk.records[-1].pid.max()) if len(fk.records[-1].pid) else -1
+        newest_dead = last_max + 1 < snap["npid"] and not pid_gap  # newest particles are in the file but no longer in its last record
+        sit["newest_pids_dead_in_last_record"] = sit.get("newest_pids_dead_in_last_record", 0) + int(newest_dead)
+        sit["newest_pids_dead_in_last_record_no_particle_variables"] = sit.get("newest_pids_dead_in_last_record_no_particle_variables", 0) + int(newest_dead and fk.nparticle_dim == 0)
         run2 = dict(scn["run"], warm_start=dict(filename=str(fk.path), variables=(["release_time"] if par["pvars"] else []) + ["age", "weight", "temp"]))
         run2["output"] = dict(scn["run"]["output"], filename=f"out_{k + 1:03d}.nc")
         sub = wd / f"B{k}"
